@@ -242,7 +242,7 @@ def main():
                       serves_properties=sorted(CLAIMS),
                       kind_free_text="explicit TLA+ specification (spec/*.tla) model-checked by TLC 1.8; "
                                      "conformance by TLC trace validation of events recorded from the real "
-                                     "library (harness/drv_*.py) and by replaying TLC-generated behaviours; Apalache 0.58 proves inductive invariants of the integer-only calendar specifications (C01, C16) for unbounded years")],
+                                     "library (harness/drv_*.py) and by replaying TLC-generated behaviours; Apalache 0.58 proves the integer-only parts for unbounded data: inductive invariants of the civil and Islamic calendar chains (C01, C16, C19), the Easter range (C19) and the print law of the dms_str carry model (C04)")],
         checks=checks,
         not_applicable=na,
         notes="See DESIGN.md (status header, sections 7, 10, 11, 12) and ASBUILT.md (generated per-check description). Exit codes: 0 held, 1 violation (VIOLATION lines), 2 machinery failure. ./check GROWTH runs the growth suite outside the listed properties (not a registered check). tools/matrix.py re-runs the seeded changes under seeded/ against the checks in scratch worktrees.")
